@@ -51,7 +51,7 @@ def is_lock_acquire(msg):
 
 
 class Actor:
-    __slots__ = ("conn", "pid", "state", "msg", "info", "blocked_on", "wake", "spawn_pid", "role", "node", "host", "top", "n", "prio", "cmd", "argv", "parked_until", "parked_at")
+    __slots__ = ("conn", "pid", "state", "msg", "info", "blocked_on", "wake", "spawn_pid", "role", "node", "host", "top", "n", "prio", "cmd", "argv", "parked_until", "parked_at", "idx")
 
     def __init__(self, conn):
         self.conn = conn
@@ -72,6 +72,7 @@ class Actor:
         self.argv = []
         self.parked_until = 0
         self.parked_at = -1
+        self.idx = 0
 
 
 def ancestors(pid):
@@ -125,6 +126,7 @@ class Sim:
         self.notes = []
         self.sig = hashlib.sha1()
         self.nshared = 0
+        self.nactors = 0
         self.last_progress_step = 0
         self.jobs = {j["name"]: j for j in scen["jobs"]}
         self.groups = {g["name"]: g for g in scen["groups"]}
@@ -294,7 +296,9 @@ class Sim:
             a.top = msg.get("tag")
             a.argv = msg.get("argv") or []
             a.cmd = " ".join(a.argv)
-            a.prio = self.rng.random()
+            a.prio = self.rng.random() if (self.scen.get("policy") or {}).get("kind") != "det" else 0.0
+            a.idx = self.nactors
+            self.nactors += 1
             chain = [a.pid, msg.get("via"), msg.get("ppid")] + ancestors(a.pid)
             if msg.get("via"):
                 chain += ancestors(msg["via"])
@@ -1391,6 +1395,18 @@ class Sim:
                     self.vnow = min(a.wake for a in sleepers)
                 continue
             kind = pol.get("kind", "walk")
+            if kind == "det":
+                # deterministic, rng-free policy (used to compare the fork server with fresh interpreters): oldest non-polling actor first,
+                # then batch starts, then job finishes in name order
+                def key(c):
+                    if c[1] == "actor" and c[2].msg["k"] != "jobrun":
+                        return (0, c[2].idx, "") if c[2].msg["k"] != "sleep" else (4, c[2].idx, "")  # pollers last: no livelock
+                    if c[1] == "start":
+                        return (1, c[2], "")
+                    if c[1] == "actor":
+                        return (2, 0, (c[2].msg.get("env") or {}).get("JADE_JOB_NAME", ""))
+                    return (3, 0, str(c[2]))
+                return min(cands, key=key)
             if kind == "sticky" and self.last_actor is not None and self.rng.random() < pol.get("sticky", 0.5):
                 for c in cands:
                     if c[2] is self.last_actor and c[2].msg["k"] != "jobrun":
@@ -1540,7 +1556,7 @@ class Sim:
             return False
         self.recoveries += 1
         tag = f"recover{self.epoch}_{self.recoveries}"
-        use_status = self.rng.random() < 0.25
+        use_status = self.rng.random() < 0.25 if (self.scen.get("policy") or {}).get("kind") != "det" else False
         host = "login" if self.ff else self.rng.choice(["login", "login", "login2"])
         if use_status:
             self.spawn_top(tag, ["jade", "show-status", "-o", self.outname, "-n"], host)
